@@ -782,7 +782,7 @@ REF_GROUPS = ["note", "lower-alpha", "nb 1", "N", "Émile", "n", "smith"]
 # too, but /repo HEAD keys its table of definitions by name only and drops the text of the second one (word loss, C07) - see
 # /verif/fixes/C07-ref-name-per-group.diff.  The ordinary grammar (space 2) writes such pairs only when this is switched on
 # (switch it on together with the fix); space 1 has them regardless.
-GROUPED_REDEFINITION = False
+GROUPED_REDEFINITION = True
 
 
 def refgroup(rng, W, p=0.5, other_than=None, keycase=False):
